@@ -1,11 +1,11 @@
 #!/bin/bash
 # usage: runshards.sh ID CASES [seeds...]  -- dev helper: run shards in parallel, print compact summaries
 ID=$1; CASES=$2; shift; shift
-for s in "$@"; do /verif/harness/target/release/tv run $ID --seed $s --cases $CASES --known /verif/known_findings.json 2>/dev/null | python3 -c "
+for s in "$@"; do (/verif/harness/target/release/tv run $ID --seed $s --cases $CASES --known /verif/known_findings.json --out /dev/shm/rs-$ID-$s.json >/dev/null 2>&1; python3 -c "
 import json,sys
-d=json.load(sys.stdin)
+d=json.load(open('/dev/shm/rs-$ID-$s.json'))
 print('seed $s', {k:d[k] for k in ['evaluations','passes','discards','known_hits']}, 'nontrivial', len(d['nontrivial_hashes']))
 print('   labels', d['labels'])
 f=d['failure']
 if f: print('FAIL', f['signature']); print(f['message'][:1200]); print(f['case'].get('text','')[:1500])
-" & done; wait
+"; rm -f /dev/shm/rs-$ID-$s.json) & done; wait
